@@ -486,6 +486,10 @@ func (m *machine) ValidTransition(to *State) error {
 		return newError(fmt.Sprintf("invalid allocation: %v", err))
 	}
 
+	if n := to.NumParts(); n != len(m.params.Parts) {
+		return newError(fmt.Sprintf("expected balances for %d participants, got %d", len(m.params.Parts), n))
+	}
+
 	if err := AssertAssetsEqual(m.currentTX.Assets, to.Assets); err != nil {
 		return newError(fmt.Sprintf("unequal assets: %v", err))
 	}
